@@ -149,6 +149,8 @@ class RefFSM(object):
                 return [ERR(2, 3)]
             if e == 'OPEN_OPTPARAM':
                 return [ERR(2, 4)]
+            if e == 'OPEN_MALFORMED':
+                return [ERR(2)]          # RFC 4271 6.2: a recognized but malformed optional parameter, subcode 0 (any accepted)
             if e in ('KA', 'UPD', 'UPD_MALFORMED'):
                 return [ERR(5)]
             if e == 'NOTIF_VER':
@@ -160,8 +162,8 @@ class RefFSM(object):
         if st == OPENCONFIRM:
             if e == 'OPEN':
                 return [NOP(st), ERR(6, 7), ERR(5)]
-            if e in ('OPEN_VER', 'OPEN_AS', 'OPEN_HOLD', 'OPEN_ID', 'OPEN_OPTPARAM'):
-                sub = {'OPEN_VER': 1, 'OPEN_AS': 2, 'OPEN_HOLD': 6, 'OPEN_ID': 3, 'OPEN_OPTPARAM': 4}[e]
+            if e in ('OPEN_VER', 'OPEN_AS', 'OPEN_HOLD', 'OPEN_ID', 'OPEN_OPTPARAM', 'OPEN_MALFORMED'):
+                sub = {'OPEN_VER': 1, 'OPEN_AS': 2, 'OPEN_HOLD': 6, 'OPEN_ID': 3, 'OPEN_OPTPARAM': 4, 'OPEN_MALFORMED': None}[e]
                 return [NOP(st), ERR(2, sub), ERR(5), ERR(6, 7)]
             if e == 'KA':
                 return [Outcome([], False, False, ESTABLISHED, name='established')]
@@ -174,8 +176,8 @@ class RefFSM(object):
         if st == ESTABLISHED:
             if e == 'OPEN':
                 return [ERR(5)]
-            if e in ('OPEN_VER', 'OPEN_AS', 'OPEN_HOLD', 'OPEN_ID', 'OPEN_OPTPARAM'):
-                sub = {'OPEN_VER': 1, 'OPEN_AS': 2, 'OPEN_HOLD': 6, 'OPEN_ID': 3, 'OPEN_OPTPARAM': 4}[e]
+            if e in ('OPEN_VER', 'OPEN_AS', 'OPEN_HOLD', 'OPEN_ID', 'OPEN_OPTPARAM', 'OPEN_MALFORMED'):
+                sub = {'OPEN_VER': 1, 'OPEN_AS': 2, 'OPEN_HOLD': 6, 'OPEN_ID': 3, 'OPEN_OPTPARAM': 4, 'OPEN_MALFORMED': None}[e]
                 return [ERR(5), ERR(2, sub)]
             if e in ('KA', 'UPD', 'RR'):
                 return [NOP(st)]
